@@ -261,7 +261,7 @@ func c08Rows() []c08Row {
 			return twccWithDelta(t, true, int64(pick(s, 32766, 32767, 32768, 1<<31)))
 		}},
 		{"TWCC.largedelta>=-32768", true, func(t *rapid.T, s string) m.Packet {
-			return twccWithDelta(t, true, int64(pick(s, -32767, -32768, -32769, -(1 << 40))))
+			return twccWithDelta(t, true, int64(pick(s, -32767, -32768, -32769, -(1<<40))))
 		}},
 		{"SDES.itemtype!=0", true, func(t *rapid.T, s string) m.Packet {
 			p := m.Packet{Kind: m.KSDES, SDES: gen.SDESWithCNAME(t)}
@@ -487,6 +487,7 @@ func ccfbTwoMetrics(t *rapid.T) m.Packet {
 }
 
 func TestC08(t *testing.T) {
+	defer harness.Uncaught(t)
 	rows := c08Rows()
 	per := harness.Scale(12, 120)
 	base := int(harness.SeedFor(8) % (1 << 30))
